@@ -28,7 +28,7 @@ NAMED = ["sum", "prod", "any", "all", "max", "min", "mean", "argmax", "argmin"]
 NEEDS_NONEMPTY = {"max", "min", "mean", "argmax", "argmin", "maximum", "minimum"}
 UFUNCS = ["add", "multiply", "logical_and", "logical_or", "logical_xor", "bitwise_and", "bitwise_or", "bitwise_xor", "maximum", "minimum"]
 MODES = ["method", "np", "ufunc.reduce", "axisNone", "keepdims", "np-keepdims", "ufunc-keepdims", "axis1", "np-positional", "axis-npint", "reduce-kwargs", "explicit-defaults", "axisNone-keepdims"]
-FLOOR_TAGS = ["recv:" + r for r in c02.RECVS] + ["mode:" + m for m in MODES] + ["f:" + f for f in NAMED + UFUNCS] + ["kind:b", "kind:i", "kind:u", "kind:f", "norows", "allempty", "e-first", "e-last", "e-mid", "e-consec", "e-none", "trailing-run"]
+FLOOR_TAGS = ["recv:" + r for r in c02.RECVS] + ["mode:" + m for m in MODES] + ["f:" + f for f in NAMED + UFUNCS] + ["kind:b", "kind:i", "kind:u", "kind:f", "norows", "allempty", "e-first", "e-last", "e-mid", "e-consec", "e-none", "trailing-run", "argm:nan-in-another-row"]
 FLOOR_MONITORS = ["c05:compare", "c05:identity-for-empty-row"]
 N_RANDOM = {"quick": 36000, "thorough": 500000}
 
@@ -152,6 +152,10 @@ def run(case):
 
     nonempty_only = name in NEEDS_NONEMPTY
     idx = [i for i in range(n) if lens[i] > 0] if nonempty_only else list(range(n))
+    if name in ("argmax", "argmin") and dt.kind in "fc" and tot and bool(np.isnan(flat).any()):
+        # a row holding a NaN has no largest cell in the tree's sense (left out); every other row keeps its answer
+        idx = [i for i in idx if not np.isnan(rows[i]).any()]
+        tags.append("argm:nan-in-another-row")
     o = attempt(lambda: [per_row(rows[i]) for i in idx] + ([] if nonempty_only else [per_row(flat[:0])])[:0])
     if not o.ok:
         return undefined("numpy raises for a row: %r" % o, tags)
@@ -212,7 +216,7 @@ def _vals(rng, dtype, n, vclass, name):
             return [rng.choice([0.5, 1.0, 2.0, -1.0, -2.0, 1.0, 1.0]) for _ in range(n)]
         if vclass == "nonfinite":
             v = gen.values(rng, dtype, n, "nonfinite").tolist()
-            if name in ("argmax", "argmin"):
+            if name in ("argmax", "argmin") and n % 2:
                 v = [float("inf") if x != x else x for x in v]
             return v
         if vclass == "decimal" and name in ("max", "min", "argmax", "argmin", "any", "all", "maximum", "minimum"):
